@@ -360,6 +360,10 @@ func (gb *genBatch) build() (string, bool) {
 		for _, m := range diagRx.FindAllStringSubmatch(out, -1) {
 			byDir[m[1]] = append(byDir[m[1]], m[0])
 		}
+		// package level diagnostics ("package verifgen/p0007: build constraints exclude all Go files in ...")
+		for _, m := range regexp.MustCompile(`(?m)^package verifgen/(p\d+)[^:]*: (.*)$`).FindAllStringSubmatch(out, -1) {
+			byDir[m[1]] = append(byDir[m[1]], m[1]+"/package: "+m[2])
+		}
 		if len(byDir) == 0 {
 			gb.r.Inconclusive("batch build failed without attributable diagnostics: %v\n%s", err, clip(out, 1500))
 			return "", false
@@ -372,6 +376,11 @@ func (gb *genBatch) build() (string, bool) {
 					if strings.Contains(dg, "zz_glue.go") {
 						glue++
 					}
+				}
+				if glue == len(diags) && gb.prop == "C07" && strings.Contains(strings.Join(diags, "\n"), "undefined: VarlinkInterface") {
+					// the emitted file contributes nothing to its package: it is excluded from the build
+					gb.viol(p, "does-not-compile emitted file is excluded from the build", "the emitted file is not part of its package (a doc comment that reads like a build constraint?):\n%s\n first lines of the file:\n%s", clip(strings.Join(diags, "\n"), 600), clip(headOf(p.goFile, 12), 800))
+					continue
 				}
 				if glue == len(diags) {
 					// only the harness' own glue fails: the generated API is not what the description implies
@@ -391,6 +400,18 @@ func (gb *genBatch) build() (string, bool) {
 	return "", false
 }
 
+func headOf(path string, n int) string {
+	b, err := os.ReadFile(path)
+	if err != nil {
+		return ""
+	}
+	l := strings.SplitN(string(b), "\n", n+1)
+	if len(l) > n {
+		l = l[:n]
+	}
+	return strings.Join(l, "\n")
+}
+
 var quotedRx = regexp.MustCompile("\"[^\"]*\"|`[^`]*`|'[^']*'")
 var identishRx = regexp.MustCompile(`\b[A-Za-z_][A-Za-z0-9_]*\b`)
 
@@ -405,8 +426,12 @@ func compileClass(diags []string) string {
 	}
 	if m := diagRx.FindStringSubmatch(first); m != nil {
 		first = m[2]
+	} else if first == "" && len(diags) > 0 {
+		first = diags[0]
 	}
 	switch {
+	case strings.Contains(first, "build constraints exclude all Go files"):
+		return "build constraints exclude all Go files"
 	case strings.Contains(first, "field and method with the same name"):
 		if i := strings.Index(first, "field and method with the same name"); i >= 0 {
 			return strings.TrimSpace(first[i:])
@@ -509,6 +534,7 @@ func c07Sentinels() []*genCase {
 	add("CRLF layout", &Desc{Name: "org.example.crlf", Doc: []string{"doc"}, Mems: []Mem{m0(), {Kind: 'e', Name: "E", T: strct(Fld{"why", base(kString)})}}}, 2)
 	add("tabs layout", &Desc{Name: "org.example.tabs", Mems: []Mem{m0()}}, 3)
 	add("doc comments with backticks", &Desc{Name: "org.example.ticks", Doc: []string{"interface `doc` with ``` backticks", "and */ and // and \"quotes\""}, Mems: []Mem{{Kind: 'm', Name: "Ping", In: strct(), Out: strct(), Doc: []string{"`method` doc", "second `line`"}}, {Kind: 't', Name: "T", T: strct(Fld{"a", base(kInt)}), Doc: []string{"type `doc`"}}, {Kind: 'e', Name: "E", T: strct(), Doc: []string{"error `doc`"}}}}, 0)
+	add("interface doc comment that reads like a build constraint", &Desc{Name: "org.example.buildtag", Doc: []string{"+build ignore"}, Mems: []Mem{{Kind: 'm', Name: "M", In: strct(), Out: strct(), Doc: []string{"+build linux", "go:build ignore"}}}}, 0)
 	add("doc comment mentioning fmt.Sprintf and json.RawMessage", &Desc{Name: "org.example.importwords", Doc: []string{"mentions fmt.Sprintf and json.RawMessage and context.Context in a comment"}, Mems: []Mem{{Kind: 'm', Name: "M", In: strct(), Out: strct()}}}, 0)
 	kw := strct()
 	for _, k := range goKeywords {
